@@ -154,3 +154,22 @@ func VerifC17_Cancelled() {
 	vCover("returned")
 	vAssert(err != nil, "a file with a damaged chunk was reported as matching after a cancellation")
 }
+
+// VerifC17_FileModes: the length rule does not depend on the file's permission bits: a regular
+// file with set-uid, set-gid or sticky bit that is one byte short or long is rejected like any
+// other (only block devices are exempt from the length comparison).
+func VerifC17_FileModes() {
+	vSchedFixed(true)
+	modes := []os.FileMode{0644, 0755 | os.ModeSetuid, 0755 | os.ModeSetgid, 0644 | os.ModeSticky, 0}
+	mode := modes[vChoose("mode", len(modes))]
+	delta := []int{-1, 0, 1}[vChoose("delta", 3)]
+	name, idx := verifC17Case(2, delta, -1, 0, 0, false)
+	vAssert(os.Chmod(name, mode) == nil, "chmod")
+	err := VerifyIndex(context.Background(), name, idx, 1+vChoose("workers", 2), NullProgressBar{})
+	vCover("VerifyIndex-returned")
+	if delta != 0 {
+		vAssert(err != nil, "a file of a different length was accepted because of its permission bits")
+	} else if mode != 0 {
+		vAssert(err == nil, "matching file rejected")
+	}
+}
